@@ -3,6 +3,7 @@ CONSTANTS
   WithField = TRUE
   Supertypes = FALSE
   MaxLen = 5
+  RegMode = "perposition"
   Walk = "recursive"
 INIT Init
 NEXT Next
